@@ -12,7 +12,7 @@ CLAIMS = {
                 'wrapped call with the model\'s own state and setter; every RNG-consuming call site reachable from any '
                 'sampler or dataset generator is scoped (effect summary over the call graph, including "a callee\'s '
                 '@random_state uses the callee\'s seed"); only validated values are stored in random_state; dataset '
-                'generators are scoped by their own seed and return exactly `size` rows (length provenance). Equality '
+                'generators are scoped by their own seed, return exactly `size` rows (length provenance) and are not memoised. Equality '
                 'of two concrete streams is implied by this structure plus NumPy determinism and is not computed.',
         'note': NOTE,
         'technique': 'CFG all-exits + RNG effect summaries over the resolved call graph + length-kind abstract interpretation',
@@ -65,7 +65,7 @@ CLAIMS['C01'] = {
             'training order on every branch (definite assignment over zip(self.columns, self.univariates), co-appended in fit), '
             'that each marginal quantile receives norm.cdf of the normal draw of the same column and that the fit-side scores '
             'are norm.ppf of clipped CDF values (space-kind typing), and that the unconditional draw uses the fitted correlation '
-            'with zero mean. That sampled columns follow the fitted marginals / rank dependence is a law of random output and '
+            'with zero mean; no function of the fit closure re-binds its table to a subset of its rows. That sampled columns follow the fitted marginals / rank dependence is a law of random output and '
             'is not decided.',
     'note': NOTE,
     'technique': 'kind systems by abstract interpretation (length, space), definite-assignment and co-append idioms',
@@ -215,7 +215,8 @@ CLAIMS['C18'] = {
             'midpoint; chandrupatla clips every evaluated point into the bracket and its tracked points only receive bracket points; '
             'reductions over the lane axis occur only in assertions and loop-exit tests; the scalar and vector interpolation formulas '
             'have the same AC normal form; bisect\'s default tolerance and exit test; every array that receives points by lane stores '
-            'is float whatever the caller passed. Convergence and accuracy are numeric, not decided.',
+            'is float whatever the caller passed; the history update of chandrupatla keeps a sign change between the two retained ends '
+            '(evaluated over the 21 sign cells of f at the ends and at the new point). Convergence and accuracy are numeric, not decided.',
     'note': NOTE,
     'technique': 'mask-agreement and containment idioms, lane-reduction enumeration, AC normal form of sibling formulas',
 }
